@@ -93,7 +93,13 @@ class Rec:
             x, y = err._c14_xy
         handed = func
         func = owner_of(func) or func
-        env = [tuple(float(v) for v in dep.parameters.values()) for dep in getattr(func, "dependent_parameters", {}).values()]
+        # everything the optimiser reads: the conditioners, THEIR conditioners, ... with the parameters they hold now
+        env, todo = {}, list(getattr(func, "dependent_parameters", {}).values())
+        while todo:
+            dep = todo.pop()
+            if id(dep) not in env:
+                env[id(dep)] = (dep, tuple(float(v) for v in dep.parameters.values()))
+                todo += list(dep.dependent_parameters.values())
         c = {"func": func, "y": y, "p0": tuple(float(v) for v in p0), "engine": engine, "kw": dict(kw), "env": env,
              "x": x}
         self.calls.append(c)
@@ -238,7 +244,7 @@ def run_protocol(DP, F, case, mode):
         for c in rec.calls:
             j = idx[id(c["func"])]
             p0t = terms.get(c["p0"], "(Start %d)" % j)
-            envt = [terms.get(e, "(Start %d)" % i) for e, i in zip(c["env"], conds[j])]
+            envt = [terms.get(pv, "(Start %d)" % i) for i, pv in sorted((idx[k], v[1]) for k, v in c["env"].items())]
             terms[c["popt"]] = "(Fitted %d %d %s [%s])" % (j, ytag[id(c["y"])], p0t, "; ".join(envt))
         trees = [terms.get(tuple(float(v) for v in f.parameters.values()), "(Start %d)" % j) for j, f in enumerate(deps)]
     obs = {"conds": conds, "log": log, "err": err, "trees": trees,
@@ -352,13 +358,15 @@ def last_call_check(calls, deps):
             continue
         c = mine[-1]
         now = tuple(float(v) for v in f.parameters.values())
-        env_now = [tuple(float(v) for v in d.parameters.values()) for d in f.dependent_parameters.values()]
+        env_now = {k: tuple(float(v) for v in d.parameters.values()) for k, (d, _) in c["env"].items()}
+        env_then = {k: pv for k, (_, pv) in c["env"].items()}
         if len(c["popt"]) != len(now):
             continue                    # some parameters are held fixed by equal bounds: scipy saw only the free ones
         if tuple(c["popt"]) != now:
             out.append((f, "holds %r but its last optimiser run returned %r" % (now, c["popt"])))
-        elif c["env"] != env_now:
-            out.append((f, "its last optimiser run read the conditioner parameters %r, the conditioners now hold %r" % (c["env"], env_now)))
+        elif env_then != env_now:
+            k = [k for k in env_now if env_now[k] != env_then[k]][0]
+            out.append((f, "its last optimiser run read the parameters %r of %r, which now holds %r" % (env_then[k], c["env"][k][0], env_now[k])))
     return out
 
 
@@ -372,19 +380,20 @@ def dep_order_oracle(DP, obs, case):
     for (j, t), d in zip(case["ops"], obs["data"]):
         last[j] = d
     out = []
-    for f, why in last_call_check(obs["calls"], deps):
-        out.append(("stale", deps.index(f), why))
     extras = case.get("extras") or [None] * n
-    ready = {}
-    for j in range(n):              # creation order is a topological order
-        ready[j] = j in last and (not conds[j] or any(ready[c] for c in conds[j]))
+    closed = {}
+    for j in range(n):              # creation order is a topological order; closed: j and all its ancestors were given data
+        closed[j] = j in last and all(closed[c] for c in conds[j])
+    for f, why in last_call_check(obs["calls"], deps):
+        if closed[deps.index(f)]:   # C14_history_closed; a function reading a data-less ancestor is outside the property
+            out.append(("stale", deps.index(f), why))
     for j in range(n):
         if j not in last:
             # C14_dataless_keeps_start: never handed data => still the start parameters
             if [float(v) for v in deps[j].parameters.values()] != [1.0, 1.0]:
                 out.append(("stale", j, "was never given data but its parameters changed to %r" % [float(v) for v in deps[j].parameters.values()]))
             continue
-        if not ready[j]:
+        if not closed[j]:
             continue
         x, y = last[j]
         dp = deps[j].dependent_parameters
@@ -733,7 +742,7 @@ def run_cond_dist(virocon, DP, F, c, mode="tag"):
     for cl in rec.calls:
         j = idx[id(cl["func"])]
         p0t = terms.get(cl["p0"], "(Start %d)" % j)
-        envt = [terms.get(e, "(Start %d)" % i) for e, i in zip(cl["env"], conds[j])]
+        envt = [terms.get(pv, "(Start %d)" % i) for i, pv in sorted((idx[k], v[1]) for k, v in cl["env"].items())]
         terms[cl["popt"]] = "(Fitted %d %d %s [%s])" % (j, tag_of(cl["y"]), p0t, "; ".join(envt))
     trees = [terms.get(tuple(float(v) for v in f.parameters.values()), "(Start %d)" % j) for j, f in enumerate(deps)]
     obs = {"conds": conds, "log": log, "trees": trees, "may": [bool(f._may_fit) for f in deps],
